@@ -30,7 +30,13 @@ class _SliceMeta(type):
 class SymSlice(metaclass=_SliceMeta):
     """Stand-in for builtin slice whose .indices() is the SMT model of PySlice_AdjustIndices."""
 
-    def __init__(s, *a):
+    def __new__(cls, *a, force=False):
+        # with concrete arguments the stand-in is the builtin slice (usable as a NumPy index)
+        if not force and not any(has_shadow(v) for v in a):
+            return builtins.slice(*a)
+        return object.__new__(cls)
+
+    def __init__(s, *a, force=False):
         if len(a) == 1:
             a = (None, a[0], None)
         elif len(a) == 2:
@@ -41,7 +47,7 @@ class SymSlice(metaclass=_SliceMeta):
     def of(x):
         if type(x) is SymSlice:
             return x
-        return SymSlice(x.start, x.stop, x.step)
+        return SymSlice(x.start, x.stop, x.step, force=True)
 
     def indices(s, n):
         n = zint(n)
@@ -73,9 +79,11 @@ def slice_needs_sym(x):
 def getitem_adapter(orig):
     """Wrap a Signal.__getitem__: builtin slices carrying shadow ints become SymSlice first."""
     def __getitem__(self, index):
+        tdata = isinstance(getattr(self, "_data", None), TArr)
         if isinstance(index, tuple):
-            index = tuple(SymSlice.of(i) if slice_needs_sym(i) else i for i in index)
-        elif slice_needs_sym(index):
+            index = tuple(SymSlice.of(i) if (slice_needs_sym(i) or (tdata and k == 0 and isinstance(i, builtins.slice))) else i
+                          for k, i in enumerate(index))
+        elif slice_needs_sym(index) or (tdata and isinstance(index, builtins.slice)):
             index = SymSlice.of(index)
         return orig(self, index)
     __getitem__._pbsym_orig = orig
@@ -145,7 +153,7 @@ class TArr:
             c = np.empty((), dtype=object)
             c[()] = cols
             cols = c
-        if not isinstance(t, SymSlice):
+        if not isinstance(t, SymSlice):      # (metaclass: builtin slices are instances too)
             raise Unsupported(f"T-array time index {t!r}")
         start, stop, step = SymSlice.of(t).indices(s.length)
         if step <= 0:
